@@ -346,12 +346,9 @@ func (s *Stack) ForEach(expr string, fn func(index int, value any) error) error 
 		}
 		return nil
 	case reflect.Map:
-		keys := rv.MapKeys()
-		sort.Slice(keys, func(i, j int) bool {
-			return keyLess(keys[i].Interface(), keys[j].Interface())
-		})
-		for i, key := range keys {
-			if err := fn(i, rv.MapIndex(key).Interface()); err != nil {
+		_, values := mapEntries(rv)
+		for i, value := range values {
+			if err := fn(i, value); err != nil {
 				return err
 			}
 		}
@@ -370,6 +367,23 @@ func keyLess(a, b any) bool {
 		return sa < sb
 	}
 	return fmt.Sprintf("%T", a) < fmt.Sprintf("%T", b)
+}
+
+// mapEntries returns the keys and values of a map, ordered by key. The pairs are taken
+// in one pass over the map: a key that does not equal itself (NaN) cannot be looked up
+// again, MapIndex returns the zero Value for it.
+func mapEntries(rv reflect.Value) (keys, values []any) {
+	type entry struct{ key, value any }
+	entries := make([]entry, 0, rv.Len())
+	for it := rv.MapRange(); it.Next(); {
+		entries = append(entries, entry{it.Key().Interface(), it.Value().Interface()})
+	}
+	sort.SliceStable(entries, func(i, j int) bool { return keyLess(entries[i].key, entries[j].key) })
+	keys, values = make([]any, len(entries)), make([]any, len(entries))
+	for i, e := range entries {
+		keys[i], values[i] = e.key, e.value
+	}
+	return keys, values
 }
 
 // Helpers
